@@ -1243,6 +1243,38 @@ func ConfigGrid(args []string) {
 				open = append(open, c) // the host stays connected while the receiver joins
 			}
 		}
+		// connected is not enough: the two clients must be able to talk (what the signaling exchange of a session
+		// does - offer, accept, credentials, candidates), and stay connected while they do
+		if len(open) == 2 {
+			host, recv := open[0], open[1]
+			hostID, recvID := peer, peer+"-r"
+			okTalk := true
+			for k := 0; k < 3 && okTalk; k++ {
+				if !roundTrip(host, recv, recvID, 7000+2*k) {
+					bad("clients_cannot_exchange_messages", map[string]any{"round": k, "direction": "host to receiver"})
+					okTalk = false
+					break
+				}
+				if !roundTrip(recv, host, hostID, 7001+2*k) {
+					bad("clients_cannot_exchange_messages", map[string]any{"round": k, "direction": "receiver to host"})
+					okTalk = false
+				}
+				time.Sleep(120 * time.Millisecond)
+			}
+			if okTalk {
+				left := false
+				for _, c := range open {
+					for _, e := range c.snapshot() {
+						if e.Type == protocol.TypePeerLeft {
+							left = true
+						}
+					}
+				}
+				if left || host.isDead() || recv.isDead() {
+					bad("peer_dropped_during_the_signaling_exchange", map[string]any{"host_closed": host.isDead(), "receiver_closed": recv.isDead(), "peer_left_seen": left})
+				}
+			}
+		}
 		for _, c := range open {
 			c.conn.Close()
 		}
